@@ -487,17 +487,21 @@ def c11_r8(ctx):
              "any method reachable from K's public cursor methods -- else next()/score()/... raise AttributeError on a perfectly "
              "well-formed matcher.")
 def c11_r9(ctx):
-    from .common import undefined_attribute_reads
+    from .common import undefined_attribute_reads, unbound_attribute_reads, constructed_names
     prog = ctx.prog
     n = 0
     for cls in M.matcher_classes(prog):
         n += 1
         bad = undefined_attribute_reads(prog, cls)
+        # ... and attributes that nothing binds at all (no class in the hierarchy, no `obj.attr = ...` anywhere); a base class that is
+        # never instantiated itself is judged through its subclasses
+        if cls.name in constructed_names(prog) or not prog.subclasses(cls, strict=True):
+            bad = bad + unbound_attribute_reads(prog, cls)
         by_attr = {}
         for attr, f, line, entry in bad:
             by_attr.setdefault(attr, []).append((f, line, entry))
         ctx.ob(cls, not bad, "every attribute read by %s's methods is bound when a %s is constructed" % (cls.name, cls.name),
                detail="; ".join("self.%s (read by %s)" % (a, ", ".join(sorted(set(x[0].name + "()" for x in v)))) for a, v in sorted(by_attr.items())) +
-                      (": bound only by a base constructor that %s.__init__ does not call" % cls.name if bad else ""), loc=cls.loc)
+                      (": bound by no constructor that building a %s runs (or by nothing at all)" % cls.name if bad else ""), loc=cls.loc)
     if n < 30:
         raise AnalysisError("only %d matcher classes" % n)
